@@ -61,7 +61,7 @@ Proof.
     try match goal with |- context [if o_cl (s_o s) then _ else _] => destruct (o_cl (s_o s)) end;
     try match goal with |- context [first_err] => unfold first_err; destruct (a_e (set_code (s_a s j) k)) end;
     try (eexists; split; [reflexivity|]; split; [apply Hoth|];
-         split; [cbn; auto; try discriminate|];
+         split; [cbn [s_i]; rewrite ?(proj1 (proj2 (i_setdeadline_keeps _ _ _))); cbn; auto; try discriminate|];
          split; [split; cbn [s_o o_sl o_rdy o_emit o_flush o_setlock]; congruence|];
          first [ left; reflexivity
                | right; split; [apply Hhold; cbn [o_lock o_emit o_flush]; congruence|];
